@@ -1,10 +1,14 @@
 """C08 — wallet ledger stays consistent over any history and survives reopening.
 
-History differential: random operation sequences are executed against a real Wallet (harness/impl/c08_impl.py) and
-against the extracted Gallina state machine (coq/Model/Ledger.v via ocaml/c08_driver.ml).  After EVERY operation
-balance(), utxos(), the per-key balances, the stored transactions and balance / utxos of EVERY (network, account)
-group of the wallet are compared, and the property statement is evaluated on the implementation's own answers by an
-oracle that does not use the model (Oracle.step / per_account), for every group.
+History differential: random and directed operation sequences are executed against real Wallet objects on one sqlite
+file (harness/impl/c08_impl.py) and against the extracted Gallina state machine (coq/Model/Ledger.v, database level
+[db_step_gen]: several wallets in one file, session view and committed rows, via ocaml/c08_driver.ml).  After an
+operation the FIRST reading is made through a second Wallet object (or a forked process) before anything else is
+called on the live object; then balance(), utxos(), the per-key balances, the stored transactions and balance / utxos
+of EVERY (network, account) group are read, for EVERY wallet of the file; operations marked "!" are followed by no
+observation at all.  Everything is compared with the model, and the property statement is evaluated on the
+implementation's own answers by an oracle that does not use the model (Oracle.step / per_account / durable /
+untouched), one oracle per wallet.
 Failing histories are shrunk to a minimal operation list before the replay is written."""
 import json, os, random, re, sys, threading, time
 import core
@@ -16,12 +20,30 @@ COQ_FILES = ['Extract/C08.v', 'Properties/C08.v']
 DRIVER = 'c08'
 IMPL = 'harness/impl/c08_impl.py'
 ALLOWED_AXIOMS = []
-MODEL_VARIANT = '1 1'      # the model mirrors the repository with fixes/C08-1 (cache reset + loaded-key sync) and C08-2
+# the model variant that mirrors the repository: fixes/C08-1 (cache reset + loaded-key sync) and C08-2 are in; delete()
+# commits; send() marks the consumed outpoints in the rows of every wallet of the file; delete() looks its
+# transaction row up by txid only (two rows -> MultipleResultsFound) until fixes/C08-8 is recorded as fixed
+KNOWN_SHARED_DELETE = 'delete_shared_txid'
+
+
+def known_status(kid):
+    for e in load_known(PROP):
+        if e.get('id') == kid or e.get('class') == kid:
+            return e.get('status')
+    return None
+
+
+def model_variant():
+    return '1 1 1 1 %d' % (1 if known_status(KNOWN_SHARED_DELETE) == 'fixed' else 0)
+
+
 WORKERS = 8
 ASSUMPTIONS = [
     'theorems are about coq/Model/Ledger.v: a state machine over (keys with persisted balance, transactions with '
     'input/output rows and spent flags, Wallet._balances) mirroring Wallet._balance_update, balance, utxos, '
-    'utxos_update/utxo_add, WalletTransaction.store/send/delete and the reload in Wallet.__init__',
+    'utxos_update/utxo_add, WalletTransaction.store/send/delete and the reload in Wallet.__init__; on top of it '
+    'the database file (db_step_gen): the wallets of one file, each with its session view and its committed rows, '
+    'the commit at the end of every writing operation, the cross-wallet effect of send()',
     'tie to /repo: history differential on every run; the operations fed to the model carry what the environment '
     'supplied (provider answers, selected inputs, signed transaction data); every ledger effect is recomputed by '
     'the model and compared after every operation',
@@ -29,9 +51,31 @@ ASSUMPTIONS = [
     '(network, account), no sent transaction already consumes an output of the transaction being stored, input '
     'rows after store() are the object\'s inputs); the driver evaluates op_ok on every step of every real history '
     'and the harness reports a step where it is false',
-    'partial: SQLAlchemy session/identity-map behaviour, sqlite isolation and Python object lifetime are not in '
-    'the Gallina model; they are reached only through the differential (readings through the same Wallet object, '
-    'through WalletKey objects and through a second Wallet object on the same file are all compared)',
+    'partial: SQLAlchemy identity-map behaviour, sqlite locking and Python object lifetime are not in the Gallina '
+    'model; they are reached only through the differential (readings through the same Wallet object, through '
+    'WalletKey objects and through a second Wallet object on the same file are all compared).  What IS in the model '
+    'since the database level was added: per wallet the session view (wl_live) and the committed rows (wl_disk), '
+    'which operations end in a commit, a reopen / second object reading wl_disk; durable_step / '
+    'reload_equal_every_op state durability for every operation kind',
+    'observation: after an operation the first reading is taken through a second Wallet object (kind flag f: by a '
+    'forked process) before the adapter calls anything on the live object (model: P token, read from wl_disk); the '
+    'oracle requires it to agree with what the live object then reports (not_durable) and that a deleted '
+    'transaction is returned by neither (deleted_tx_present); operations written with "!" are followed by no '
+    'observation and no call at all before the next operation / the reopen',
+    'several wallets in one file (same keys under a second name, cosigner wallet of the 2-of-2, unrelated seed): every '
+    'wallet is observed after every operation, compared with its own model ledger and checked by its own oracle; '
+    'an operation on another wallet must leave its unspent outputs and stored transactions as they were, except that '
+    'an outpoint consumed by a transaction another wallet of the file broadcast may have become spent '
+    '(other_wallet_changed).  The code as it is marks the consumed outpoints in the rows of EVERY wallet of the '
+    'file (send() looks them up by txid and output_n only): modelled faithfully (mark_wal), the other wallet stays '
+    'consistent (db_inv_step), theorem other_wallets_untouched carries the guard touches_others = false and '
+    'other_wallets_untouched_refuted shows it is needed; the property text does not speak about it (the outpoint '
+    'is spent on the network), so it is counted (sends_marking_rows_of_another_wallet), not reported',
+    'transaction_delete of a transaction id which another wallet of the file holds too raises '
+    'MultipleResultsFound in the code as it is (recorded-finding class delete_shared_txid, proposed in '
+    'fixes/C08-known-shared-delete.json, repair fixes/C08-8-delete-own-wallet-rows.diff): attempted only when the '
+    'entry is recorded (kind flag x; status known -> model variant v_del_own = 0 answers DRefused, status fixed -> '
+    'v_del_own = 1); otherwise the adapter skips such a deletion (answer skip:shared)',
     'coin selection itself (which unspent outputs are picked) is taken from the implementation and checked for '
     'admissibility (Select); sweep completeness and amounts are C07',
     'several accounts and networks: the HD histories open up to 3 accounts on the wallet\'s network (bitcoinlib_test, '
@@ -54,14 +98,22 @@ ASSUMPTIONS = [
     'gettransactions and are not exercised; mixed witness types in one wallet are not exercised',
 ]
 RULE = ('random histories over {new_key, get_key, new_account (own and second network), utxos_update (rescan / no '
-        'rescan / one key / naming an account or network), utxo_add and utxos_update(utxos=..) (colliding outpoints), '
-        'send_to / sweep (own or external destination, broadcast or not, min_confirms 0/1, from any (network, account) '
-        'group), later broadcast / store / import / reload of a created transaction, transaction_delete, reopen} for HD '
-        '(segwit, legacy, p2sh-segwit; half of them with several accounts, a quarter with a second network), single-key '
-        'and 2-of-2 multisig wallets; corpus histories with interleaved key ids of two accounts / two networks; one '
-        'evaluation = one operation followed by a full observation (default readings, then balance / utxos of every '
-        'group, key balances and key groups) compared with the model; a step is non-trivial when it changed balance, '
-        'unspent set, per-key balances, stored transactions or a per-group reading; distinct by (kind, operation prefix)')
+        'rescan / one key / naming an account or network), utxo_add and utxos_update(utxos=..) (colliding outpoints, '
+        'several output numbers of one txid), send_to / sweep (own or external destination, broadcast or not, '
+        'min_confirms 0/1, from any (network, account) group), send_to(input_key_id) and send(input_arr=[one chosen '
+        'unspent output]), later broadcast / store / import / reload of a created transaction, transaction_delete, '
+        'reopen} for HD (segwit, legacy, p2sh-segwit; half of them with several accounts, a quarter with a second '
+        'network), single-key and 2-of-2 multisig wallets; a third of them with runs of operations that are not '
+        'observed, a fifth with the first reading made by a forked process; corpus histories; three directed '
+        'families: durability (every operation kind directly followed by reopen / second object / other process), '
+        'sibling outputs (a funding transaction with several wallet outputs through utxo_add, a provider answering '
+        'several outputs per txid, a payment to self, another account; spent by different transactions; then delete / '
+        'store again / import / rescan / reopen in random order), several wallets in one file (same keys, cosigner, '
+        'unrelated; either wallet registers the overlapping outpoints first; spends, cross imports, deletes, '
+        'reopens); one evaluation = one observation of one wallet (first reading through a second object, default '
+        'readings, then balance / utxos of every group, key balances and key groups) compared with the model; a step '
+        'is non-trivial when it changed balance, unspent set, per-key balances, stored transactions or a per-group '
+        'reading of that wallet; distinct by (kind, history, step)')
 
 KINDS_QUICK = ['hd'] * 5 + ['hdl', 'hdp', 'single', 'single', 'ms']
 KNOWN_CROSS = 'cross_account_output'
@@ -106,7 +158,7 @@ def gen_history(rng, lo, hi, multi=False, cross=False, nets=False):
             ops.append('%s:%d:%d:%d:%d:%d' % ('uA' if cross and rng.random() < 0.4 else 'ua',
                                                rng.randrange(16 if nets else 12 if multi else 6),
                                                rng.choice([600, 1000, 5000, 70000, 2500000, 100000000]),
-                                               rng.randrange(4), rng.randrange(2), rng.choice([0, 1, 3, 10])))
+                                               rng.randrange(4), rng.choice([0, 0, 1, 1, 2]), rng.choice([0, 1, 3, 10])))
         elif r < 0.60:
             a = acc()
             ops.append('st:%s:%d:%d:%d%s' % (rng.choice(['e', 'e', own()]),
@@ -126,18 +178,165 @@ def gen_history(rng, lo, hi, multi=False, cross=False, nets=False):
             ops.append('%s:%d' % ('iM' if cross and rng.random() < 0.5 else 'im', rng.randrange(8)))
         elif r < 0.83:
             ops.append('ld:%d' % rng.randrange(12))
-        elif r < 0.91:
+        elif r < 0.90:
             ops.append('de:%d' % rng.randrange(12))
+        elif r < 0.93:
+            # exactly one chosen unspent output / the outputs of one key are spent
+            ops.append('si:%d:%s:%d:%d' % (rng.randrange(6), rng.choice(['e', own()]), rng.choice([300, 900]),
+                                           1 if rng.random() < 0.8 else 0) if rng.random() < 0.5 else
+                       'sk:%d:%s:%d:%d:%d' % (rng.randrange(8), rng.choice(['e', own()]), rng.choice([300, 900, 990]),
+                                              1 if rng.random() < 0.8 else 0, rng.randrange(2)))
         else:
             ops.append('ro')
     return ops
 
 
-def gen_histories(rng, tier, cross=False):
-    if tier == 'thorough':
-        n, lo, hi = 1000, 5, 100
+def quieten(rng, ops, p):
+    """Operations follow each other with NO observation in between: a trailing "!" suppresses the observation after
+    the operation (the adapter then makes no call at all on the wallet between this operation and the next)."""
+    return [o + '!' if rng.random() < p and not o.startswith(('w:', 'nw')) else o for o in ops]
+
+
+FUND_VALUES = [600, 5000, 70000, 2500000, 100000000]
+
+
+def gen_durable(rng):
+    """Class 1: every kind of operation directly followed by a second Wallet object / another process reading the
+    file, or by close + reopen, with no call on the wallet object in between."""
+    pre = ['uu'] if rng.random() < 0.6 else ['ua:0:%d:0:0:3' % rng.choice(FUND_VALUES[2:]), 'ua:1:%d:0:1:3' % rng.choice(FUND_VALUES[2:])]
+    pre += rng.sample(['nk', 'st:e:300:1:1', 'st:o1:500:1:0', 'st:e:400:0:1', 'ua:2:70000:1:0:1', 'sk:0:e:500:1:0'],
+                      rng.randrange(1, 4))
+    burst_pool = ['de:%d' % rng.randrange(8), 'dl:%d' % rng.randrange(3), 'ps:%d' % rng.randrange(4),
+                  'bc:%d' % rng.randrange(4), 'im:%d' % rng.randrange(4), 'ld:%d' % rng.randrange(8),
+                  'ua:%d:%d:%d:%d:%d' % (rng.randrange(6), rng.choice(FUND_VALUES), rng.randrange(3), rng.randrange(3), rng.choice([0, 1, 5])),
+                  'uu', 'un', 'uk:%d' % rng.randrange(6), 'nk', 'gk',
+                  'st:%s:%d:%d:%d' % (rng.choice(['e', 'o1']), rng.choice([100, 500, 990]), rng.randrange(2), rng.randrange(2)),
+                  'sw:e:%d:%d' % (rng.randrange(2), rng.randrange(2)),
+                  'si:%d:e:%d:%d' % (rng.randrange(4), rng.choice([300, 900]), rng.randrange(2)),
+                  'sk:%d:e:%d:1:0' % (rng.randrange(6), rng.choice([300, 900]))]
+    ops = list(pre)
+    for _ in range(rng.randrange(2, 5)):
+        burst = [rng.choice(burst_pool) for _ in range(rng.randrange(1, 4))]
+        mode = rng.random()
+        if mode < 0.45:
+            ops += [o + '!' for o in burst] + ['ro']            # close + reopen directly after the operations
+        elif mode < 0.7:
+            ops += [o + '!' for o in burst[:-1]] + [burst[-1]]   # observed only after the last one
+        else:
+            ops += burst                                         # second object / other process first, every time
+    return ops
+
+
+def gen_siblings(rng):
+    """Class 2: a funding transaction with SEVERAL outputs of the wallet, spent by DIFFERENT transactions, then
+    delete / store again / import / rescan / reopen in every order.  Returns (kind flags, ops)."""
+    how = rng.randrange(4)
+    flags = ''
+    nkeys = rng.randrange(2, 4)
+    if how == 0:
+        # utxo_add of several output numbers of one transaction id, to different keys (and one key twice)
+        slot = rng.randrange(4)
+        ops = ['nk'] * (nkeys - 1)
+        ns = rng.sample(range(5), nkeys + 1)
+        for j, n in enumerate(ns):
+            ops.append('ua:%d:%d:%d:%d:%d' % (j % nkeys, rng.choice(FUND_VALUES[2:]), slot, n, rng.choice([1, 3, 10])))
+    elif how == 1:
+        # the provider answers with several outputs per transaction id
+        flags = 'm'
+        ops = ['nk'] * (nkeys - 1) + ['uu']
+    elif how == 2:
+        # payment to self with change: two outputs of one own transaction
+        ops = ['uu', 'st:o%d:%d:1:1' % (rng.randrange(1, 4), rng.choice([300, 500, 700]))]
     else:
-        n, lo, hi = 120, 5, 40
+        # several outputs through utxos_update(utxos=..) into one transaction of another account
+        ops = ['na', 'nk:1', 'nk:1']
+        slot = rng.randrange(4)
+        ops += ['ua:%d:%d:%d:%d:5' % (1 + j, rng.choice(FUND_VALUES[2:]), slot, j) for j in range(2)]
+    # the siblings are spent by different transactions
+    spends = []
+    for j in range(rng.randrange(2, 4)):
+        r = rng.random()
+        if how == 3:
+            spends.append('st:e:%d:1:0:1' % rng.choice([300, 600]))
+        elif r < 0.5:
+            spends.append('sk:%d:%s:%d:%d:0' % (j, rng.choice(['e', 'e', 'o1']), rng.choice([500, 900, 990]),
+                                                  1 if rng.random() < 0.85 else 0))
+        else:
+            spends.append('si:%d:%s:%d:%d' % (rng.randrange(4), rng.choice(['e', 'e', 'o2']), rng.choice([500, 900]),
+                                               1 if rng.random() < 0.85 else 0))
+    ops += spends
+    after = ['de:%d' % j for j in rng.sample(range(7), rng.randrange(1, 4))] + \
+        ['dl:%d' % j for j in rng.sample(range(3), rng.randrange(1, 3))] + \
+        rng.sample(['ld:%d' % rng.randrange(8), 'ps:%d' % rng.randrange(5), 'im:%d' % rng.randrange(5),
+                    'bc:%d' % rng.randrange(5), 'ro', 'un', 'uu', 'uk:%d' % rng.randrange(4),
+                    'ua:%d:%d:%d:%d:3' % (rng.randrange(3), 70000, rng.randrange(4), rng.randrange(3)),
+                    'si:%d:e:900:1' % rng.randrange(4), 'sw:e:1:0'], rng.randrange(2, 6))
+    rng.shuffle(after)
+    return flags, ops + after
+
+
+def gen_wallets(rng, kind, shared_delete):
+    """Class 3: SEVERAL wallets in one database file (the same keys restored under a second name, the cosigner's
+    wallet of a 2-of-2, unrelated wallets) registering overlapping outpoints in both orders, spending, importing
+    each other's transactions, deleting, reopening.  Returns (kind flags, ops)."""
+    flags = 'x' if shared_delete else ''
+    how = rng.choice(['s', 's', 'o'] + (['c', 'c'] if kind == 'ms' else []))
+
+    def fund():
+        r = rng.random()
+        if r < 0.45:
+            return ['uu' if rng.random() < 0.7 else 'un']
+        # the same pool outpoint in every wallet (unrelated wallets register it for their own address)
+        return ['ua:%d:%d:%d:%d:%d' % (rng.randrange(2), rng.choice(FUND_VALUES[2:]), rng.randrange(2), rng.randrange(2),
+                                        rng.choice([1, 5]))]
+
+    def spend():
+        r = rng.random()
+        if r < 0.4:
+            return 'si:%d:%s:%d:1' % (rng.randrange(4), rng.choice(['e', 'e', 'o1']), rng.choice([500, 900]))
+        if r < 0.7:
+            return 'st:%s:%d:%d:%d' % (rng.choice(['e', 'e', 'o1']), rng.choice([100, 500, 990]),
+                                        1 if rng.random() < 0.8 else 0, rng.randrange(2))
+        if r < 0.85:
+            return 'sw:e:1:%d' % rng.randrange(2)
+        return 'sk:%d:e:%d:1:0' % (rng.randrange(6), rng.choice([500, 990]))
+
+    ops = []
+    order = rng.randrange(3)
+    if order == 0:
+        ops += fund() + ['nw:' + how] + fund()                   # the first wallet registers the outpoints first
+    elif order == 1:
+        ops += ['nw:' + how] + fund() + ['w:0'] + fund()         # the second wallet registers them first
+    else:
+        ops += fund() + [spend(), 'nw:' + how] + fund()          # ... after the first wallet has spent one
+    if rng.random() < 0.25:
+        ops += ['nw:' + rng.choice(['s', 'o'])] + fund()
+    for _ in range(rng.randrange(3, 8)):
+        r = rng.random()
+        if r < 0.3:
+            ops.append('w:%d' % rng.randrange(3))
+        elif r < 0.55:
+            ops.append(spend())
+            if rng.random() < 0.3:
+                ops.append('dl:0')          # the transaction just sent is deleted again
+        elif r < 0.65:
+            ops += fund()
+        elif r < 0.75:
+            ops.append(rng.choice(['de:%d' % rng.randrange(8), 'dl:%d' % rng.randrange(2), 'dl:0']))
+        elif r < 0.83:
+            ops.append(rng.choice(['iw:%d' % rng.randrange(4), 'im:%d' % rng.randrange(4)]))
+        elif r < 0.9:
+            ops.append(rng.choice(['bc:%d' % rng.randrange(4), 'ps:%d' % rng.randrange(4)]))
+        else:
+            ops.append('ro')
+    return flags, quieten(rng, ops, 0.15)
+
+
+def gen_histories(rng, tier, cross=False, shared_delete=False):
+    if tier == 'thorough':
+        n, lo, hi, nd = 1000, 5, 100, 400
+    else:
+        n, lo, hi, nd = 96, 5, 36, 16
     hs = []
     # corpus first: the recorded witnesses
     hs.append(('hd', 'corpus0', ['uu', 'sw:e:1:1']))
@@ -153,13 +352,42 @@ def gen_histories(rng, tier, cross=False):
     # a second network: groups (bitcoinlib_test, 0), (bitcoinlib_test, 1), (litecoin, 0) with interleaved key ids
     hs.append(('hd', 'corpus7', ['nn', 'nk', 'na', 'nk:2', 'nk:0', 'uu', 'uu:1', 'st:e:500:1:1:2', 'ro', 'sw:e:1:0:2',
                                  'ua:3:70000:1:0:3', 'de:1']))
+    # delete directly followed by close + reopen / by another process reading the file
+    hs.append(('hd', 'corpus8', ['uu', 'st:e:300:1:1', 'de:2!', 'ro', 'de:0!', 'ro']))
+    hs.append(('hdl+f', 'corpus9', ['uu', 'st:e:300:1:1', 'de:2', 'de:0', 'de:1']))
+    # two outputs of one funding transaction spent by two transactions; each of them deleted
+    hs.append(('hd', 'corpus10', ['nk', 'ua:0:70000:0:0:3', 'ua:1:50000:0:1:3', 'sk:0:e:900:1:1', 'sk:1:e:900:1:1',
+                                  'de:2', 'de:1', 'ro']))
+    hs.append(('hd+m', 'corpus11', ['nk', 'nk', 'uu', 'sk:0:e:900:1:1', 'sk:1:e:900:1:1', 'de:0', 'de:1', 'de:2', 'de:3']))
+    # the same keys restored under a second name in the same file: either wallet registered the outputs first
+    hs.append(('hd', 'corpus12', ['uu', 'nw:s', 'uu', 'si:0:e:500:1', 'w:0', 'si:1:e:500:1', 'ro']))
+    hs.append(('hdp', 'corpus13', ['nw:s', 'uu', 'w:0', 'uu', 'si:0:e:500:1', 'w:1', 'st:e:990:1:1', 'ro']))
+    hs.append(('ms', 'corpus14', ['uu', 'nw:c', 'uu', 'sw:e:1:1', 'w:0', 'uu', 'st:e:500:0:1', 'w:1', 'iw:0', 'bc:0']))
+    hs.append(('single', 'corpus15', ['ua:0:70000:0:0:3', 'nw:o', 'ua:0:5000:0:0:1', 'st:e:900:1:0', 'w:0', 'st:e:900:1:0']))
+    # one wallet spends an outpoint both wallets know, then deletes its transaction again
+    hs.append(('hd', 'corpus16', ['uu', 'nw:s', 'uu', 'si:0:e:500:1', 'dl:0', 'w:0', 'si:1:e:500:1', 'w:1', 'dl:0', 'ro']))
     for i in range(n):
         kind = KINDS_QUICK[i % len(KINDS_QUICK)]
         # accounts exist for the HD kinds only (new_account needs a BIP32 master key with an account level)
         multi = kind in ('hd', 'hdl', 'hdp') and i % 2 == 0
-        hs.append((kind, 'h%d_%d' % (rng.getrandbits(32), i),
-                   gen_history(rng, lo, hi, multi=multi, cross=cross and multi and i % 4 == 0,
-                               nets=multi and i % 4 == 2)))
+        ops = gen_history(rng, lo, hi, multi=multi, cross=cross and multi and i % 4 == 0, nets=multi and i % 4 == 2)
+        flags = ''
+        if i % 3 == 1:
+            ops = quieten(rng, ops, 0.35)
+        if i % 5 == 3:
+            flags = '+f'
+        hs.append((kind + flags, 'h%d_%d' % (rng.getrandbits(32), i), ops))
+    for i in range(nd):
+        kind = KINDS_QUICK[(3 * i + 1) % len(KINDS_QUICK)]
+        hs.append((kind + rng.choice(['', '', '+f']), 'd%d_%d' % (rng.getrandbits(32), i), gen_durable(rng)))
+        flags, ops = gen_siblings(rng)
+        kind = ['hd', 'hdl', 'hdp', 'hd', 'single', 'ms'][i % 6]
+        if kind in ('single', 'ms') and ops[0] in ('na', 'nk'):
+            kind = 'hd'
+        hs.append((kind + ('+' + flags if flags else ''), 's%d_%d' % (rng.getrandbits(32), i), ops))
+        kind = ['hd', 'ms', 'hdl', 'single', 'hdp', 'ms', 'hd'][i % 7]
+        flags, ops = gen_wallets(rng, kind, shared_delete)
+        hs.append((kind + ('+' + flags if flags else ''), 'w%d_%d' % (rng.getrandbits(32), i), ops))
     return hs
 
 
@@ -202,9 +430,13 @@ def run_impl_parallel(hs, rundir, workers=WORKERS):
     return results, errs
 
 
-def obs_groups(o):
+def obs_groups(o, field='pa'):
     """The (network, account) groups the adapter read one by one, in its order: "nw.acct,..."."""
-    return ','.join(x.split('~', 1)[0] for x in o.get('pa', '').split('+') if x)
+    return ','.join(x.split('~', 1)[0] for x in o.get(field, '').split('+') if x)
+
+
+def observed(s):
+    return isinstance(s['obs'], dict)
 
 
 def model_line(r):
@@ -213,30 +445,40 @@ def model_line(r):
         toks += s['mops']
         if s['obs'] is None:
             break
-        toks.append(('OF' if 'txs2' in s['obs'] else 'O') + ':' + (obs_groups(s['obs']) or '-'))
-    return 'hist %s 0 %d %d %s' % (MODEL_VARIANT, r['acct'], 1 if r['bip32'] else 0, ' '.join(toks))
+        if not observed(s):
+            continue
+        o = s['obs']
+        toks.append('P:%s:%s' % (o.get('pre_txids') or '-', obs_groups(o, 'pa_pre') or '-'))
+        toks.append(('OF' if 'txs2' in o else 'O') + ':' + (obs_groups(o) or '-'))
+    return 'hist %s %s' % (model_variant(), ' '.join(toks))
 
 
 def parse_model(r, out):
-    """Split the driver's answer back into per-step (guards, selects, observation)."""
+    """Split the driver's answer back into per-step (guards, selects, observation, respend, refused, touches)."""
     items = out.split('|')
     j = 0
     steps = []
     for s in r['steps']:
-        guards, sels, respend = [], [], False
+        guards, sels, respend, refused, touches = [], [], False, False, False
         for m in s['mops']:
             it = dict(x.split('=', 1) for x in items[j].split(';') if '=' in x)
             j += 1
+            if m[0] in 'W@':
+                continue
             guards.append(it.get('g') == '1')
             respend = respend or it.get('k') == '1'
+            refused = refused or it.get('refused') == '1'
+            touches = touches or it.get('t') == '1'
             if 'sel' in it:
                 sels.append(it['sel'] == '1')
+        ob = None
+        if s['obs'] is not None and observed(s):
+            ob = dict(x.split('=', 1) for x in items[j].split(';'))
+            ob.update(dict(x.split('=', 1) for x in items[j + 1].split(';')))
+            j += 2
+        steps.append((guards, sels, ob, respend, refused, touches))
         if s['obs'] is None:
-            steps.append((guards, sels, None, respend))
             break
-        ob = dict(x.split('=', 1) for x in items[j].split(';'))
-        j += 1
-        steps.append((guards, sels, ob, respend))
     return steps
 
 
@@ -273,6 +515,19 @@ class Oracle:
         self.sent_view = {}      # txid -> (ins, outs, raw)
         self.dflt = default_group
         self.key_acct = {}       # key id -> "nw.acct" when the key was first listed
+        self.deleted = set()     # transaction ids removed by transaction_delete and not stored again since
+        self.prev = None         # (unspent outputs, transactions) at the last observation of this wallet
+        self.own_dirty = True    # an operation ran on this wallet since then
+        self.foreign = set()     # outpoints consumed by transactions OTHER wallets of the file broadcast since then
+
+    def foreign_op(self, s):
+        """An operation of another wallet of the same database file."""
+        for m in s['mops']:
+            a = m.split(':')
+            if a[0] == 'T' and a[1] == '1' and a[6] != '-':
+                for x in a[6].split(','):
+                    i = x.split('/')
+                    self.foreign.add((i[1], int(i[2])))
 
     def step(self, s):
         """s: one adapter step.  Returns a list of (class, message)."""
@@ -296,11 +551,26 @@ class Oracle:
                     self.sent_view[a[2]] = (sorted((int(i[0]), i[1], int(i[2]), int(i[3])) for i in ins),
                                             sorted((int(o[0]), int(o[1])) for o in outs), a[8])
             elif a[0] == 'D':
+                if (s.get('err') or '').startswith('ERR refused'):
+                    bad.append((KNOWN_SHARED_DELETE, 'transaction_delete(%s) raised %s although the wallet holds the '
+                                'transaction (another wallet of the file holds a transaction with the same id)'
+                                % (a[1][:12], s['err'][12:])))
+                    continue
                 self.consumed.pop(a[1], None)
                 self.sent_view.pop(a[1], None)
+                self.deleted.add(a[1])
+            if a[0] == 'T':
+                self.deleted.discard(a[2])
+            elif a[0] == 'U' and a[5] != '-':
+                for x in a[5].split(','):
+                    self.deleted.discard(x.split('/')[1])
+            if a[0] not in 'W@':
+                self.own_dirty = True
         o = s['obs']
-        if o is None:
+        if not isinstance(o, dict):
             return bad
+        bad += self.durable(o)
+        bad += self.untouched(o)
         ut = parse_utxos(o['utxos'])
         usum = sum(u[2] for u in ut)
         if not o.get('bal_exact', True) or int(o['bal']) != usum:
@@ -370,6 +640,76 @@ class Oracle:
         return bad
 
 
+def tx_key(t):
+    return (t[1], t[2], t[3])
+
+
+def durable(self, o):
+    """The first reading after the operation, made through a second Wallet object (or another process) before any
+    call on the live object, against what the live object reports afterwards: the operation's effect is in the file.
+    A transaction the wallet deleted is not returned by either."""
+    bad = []
+    if 'utxos_pre' not in o:
+        return bad
+    if o['utxos_pre'] != o['utxos']:
+        bad.append(('not_durable:utxos', 'directly after the operation a second Wallet object on the database lists '
+                    'other unspent outputs (%d) than the wallet object itself (%d)'
+                    % (len(parse_utxos(o['utxos_pre'])), len(parse_utxos(o['utxos'])))))
+    pre = {g: u for g, u in (x.split('~') for x in o.get('pa_pre', '').split('+') if x)}
+    for g, b, gl in parse_pa(o.get('pa', '')):
+        if g in pre and sorted(parse_utxos(pre[g])) != sorted(gl):
+            bad.append(('not_durable:utxos', 'directly after the operation a second Wallet object lists other unspent '
+                        'outputs for account %s than the wallet object itself' % g))
+    ids = set(x for x in o.get('pre_txids', '').split(',') if x)
+    live = {t[0]: tx_key(t) for t in split_txs(o['txs']) if t[0] in ids}
+    second = {t[0]: tx_key(t) for t in split_txs(o['txs_pre'])}
+    for txid in sorted(set(live) | set(second)):
+        if live.get(txid) != second.get(txid):
+            how = ('is not stored for' if txid not in second else 'is still stored for' if txid not in live
+                   else 'has other inputs / outputs / spent flags for')
+            bad.append(('not_durable:txs', 'directly after the operation transaction %s %s a second Wallet object on '
+                        'the database, unlike for the wallet object itself' % (txid[:12], how)))
+    present = set(t[0] for t in split_txs(o['txs'])) | set(second)
+    for txid in sorted(self.deleted & present):
+        bad.append(('deleted_tx_present', 'transaction %s was deleted with transaction_delete and is returned by '
+                    'transaction() again' % txid[:12]))
+    return bad
+
+
+def untouched(self, o):
+    """Between two observations of this wallet only OTHER wallets of the file were used: its unspent outputs and
+    stored transactions are what they were, except that an outpoint consumed by a transaction another wallet
+    broadcast in between may have become spent (it is spent on the network)."""
+    bad = []
+    ut = set(parse_utxos(o['utxos']))
+    for g, b, gl in parse_pa(o.get('pa', '')):
+        ut |= set(gl)
+    txs = {t[0]: t for t in split_txs(o['txs'])}
+    if self.prev is not None and not self.own_dirty:
+        put, ptxs = self.prev
+        if ut - put:
+            u = sorted(ut - put)[0]
+            bad.append(('other_wallet_changed', 'an operation on another wallet of the file made %s:%d an unspent '
+                        'output of this wallet' % (u[0][:12], u[1])))
+        gone = [u for u in put - ut if (u[0], u[1]) not in self.foreign]
+        if gone:
+            bad.append(('other_wallet_changed', 'an operation on another wallet of the file removed %s:%d from the '
+                        'unspent outputs of this wallet' % (gone[0][0][:12], gone[0][1])))
+        for txid in sorted(set(txs) | set(ptxs)):
+            a, b = ptxs.get(txid), txs.get(txid)
+            same = a is not None and b is not None and a[1] == b[1] and a[2] == b[2] and len(a[3]) == len(b[3]) and \
+                all(x[:3] == y[:3] and (x[3] == y[3] or (x[3] == '0' and y[3] == '1' and (txid, x[0]) in self.foreign))
+                    for x, y in zip(a[3], b[3]))
+            if not same:
+                bad.append(('other_wallet_changed', 'an operation on another wallet of the file changed the stored '
+                            'transaction %s of this wallet' % txid[:12]))
+                break
+    self.prev = (ut, txs)
+    self.own_dirty = False
+    self.foreign = set()
+    return bad
+
+
 def per_account(self, o, ut, spent_now):
     """The balance clauses for EVERY account of the wallet, on the implementation's own answers:
     balance(account_id=a) == sum utxos(account_id=a) == sum of the balances of the keys of account a; every key
@@ -415,6 +755,8 @@ def per_account(self, o, ut, spent_now):
 
 
 Oracle.per_account = per_account
+Oracle.durable = durable
+Oracle.untouched = untouched
 
 
 def split_txs(s):
@@ -427,7 +769,7 @@ def split_txs(s):
     return res
 
 
-CMP_FIELDS = ('kbpre', 'bal', 'utxos', 'kb', 'txs', 'pa', 'kbA', 'ka')
+CMP_FIELDS = ('kbpre', 'utxos_pre', 'txs_pre', 'pa_pre', 'bal', 'utxos', 'kb', 'txs', 'pa', 'kbA', 'ka')
 # failure classes that a cross-account output explains (the per-account sums and what follows from them); the
 # clauses about spent outputs, reload and the second wallet object stay as they are
 CROSS_EXPLAINS = ('acct_', 'keysum_ne_unspent', 'keybal_ne_unspent', 'balance_ne_unspent', 'default_ne_named_account',
@@ -436,65 +778,92 @@ CROSS_EXPLAINS = ('acct_', 'keysum_ne_unspent', 'keybal_ne_unspent', 'balance_ne
 
 def judge(r, mout):
     """Compare one executed history with the model.  Returns (failures, stats): the first failure of every class,
-    failure = dict(step=i, cls=.., what=.., kind='property'|'correspondence'|'crash').  The property oracle keeps
-    running after a failure; the model comparison stops at the first divergence (the states differ from there)."""
-    stats = {'steps': 0, 'nontrivial': 0, 'guard_false': 0, 'errs': 0}
+    failure = dict(step=i, opi=k, cls=.., what=.., kind='property'|'correspondence'|'crash'); opi = number of
+    operations of the history executed up to and including step i.  The property oracle (one per wallet of the file)
+    keeps running after a failure; the model comparison stops at the first divergence (the states differ from there)."""
+    stats = {'steps': 0, 'nontrivial': 0, 'guard_false': 0, 'errs': 0, 'touches': 0, 'refused': 0, 'quiet': 0}
     if 'crash' in r:
-        return [{'step': -1, 'cls': 'adapter_crash', 'what': r['crash'], 'kind': 'crash'}], stats
+        return [{'step': -1, 'opi': 0, 'cls': 'adapter_crash', 'what': r['crash'], 'kind': 'crash'}], stats
     msteps = parse_model(r, mout) if mout is not None else None
-    orc = Oracle('0.%d' % r.get('acct', 0))
-    prev = None
+    orcs = {}
+    prevs = {}
     fails, seen = [], set()
+    opi = 0
 
     def add(f):
         if f['cls'] not in seen:
             seen.add(f['cls'])
+            f['opi'] = opi
             fails.append(f)
 
     model_alive = msteps is not None
     respent = False        # model class predicate store_respends held at some earlier step of this history
     crossed = False        # model class predicate has_cross held after this or an earlier step
     for i, s in enumerate(r['steps']):
+        wid = s.get('wid', 0)
+        if s['op'] not in ('create', '@obs'):
+            opi += 1
         if s['obs'] is None:
             add({'step': i, 'cls': 'impl_crash', 'what': 'operation %s raised: %s' % (s['op'], s['err']),
                  'kind': 'property'})
             break
-        stats['steps'] += 1
+        if wid not in orcs:
+            orcs[wid] = Oracle('0.%d' % r.get('acct', 0))
+        for w2, oc in orcs.items():
+            if w2 != wid:
+                oc.foreign_op(s)
+        obs = observed(s)
+        if obs:
+            stats['steps'] += 1
+        else:
+            stats['quiet'] += 1
         if s['err']:
             stats['errs'] += 1
         if msteps is not None and msteps[i][3]:
             respent = True
         if msteps is not None and msteps[i][2] is not None and msteps[i][2].get('x') == '1':
             crossed = True
-        for cls, what in orc.step(s):
+        for cls, what in orcs[wid].step(s):
             if respent and cls in ('consumed_listed_unspent', 'reselected'):
                 cls = 'restore_resets_spent'
             elif crossed and cls.startswith(CROSS_EXPLAINS):
                 cls = KNOWN_CROSS + ':' + cls
             add({'step': i, 'cls': cls, 'what': what, 'kind': 'property'})
         if msteps is not None:
-            guards, sels, mo, _ = msteps[i]
+            guards, sels, mo, _, refused, touches = msteps[i]
             if not all(guards):
                 stats['guard_false'] += 1
+            if touches:
+                stats['touches'] += 1
+            if refused:
+                stats['refused'] += 1
         if model_alive:
             pre = KNOWN_CROSS + ':' if crossed else ''
             if not all(sels):
                 add({'step': i, 'cls': pre + 'select_inadmissible', 'kind': 'correspondence',
                      'what': 'the implementation selected an input the model does not list as spendable in the '
                              'account the call named'})
+            if refused != (s['err'] or '').startswith('ERR refused'):
+                add({'step': i, 'cls': 'model_differs:refused', 'kind': 'correspondence',
+                     'what': 'after %s: the model %s the deletion, the implementation %s' %
+                             (s['op'], 'refuses' if refused else 'performs', 'raised' if not refused else 'did not')})
+                model_alive = False
+        if model_alive and obs:
             for f in CMP_FIELDS:
                 if f not in s['obs']:
                     continue
                 if mo.get(f) != s['obs'][f]:
                     add({'step': i, 'cls': pre + 'model_differs:' + f, 'kind': 'correspondence',
-                         'what': 'after %s the implementation and the model differ on %s' % (s['op'], f),
+                         'what': 'after %s the implementation and the model differ on %s (wallet %d of the file)'
+                                 % (s['op'], f, wid),
                          'impl': s['obs'][f][:1500], 'model': (mo.get(f) or '')[:1500]})
                     model_alive = False
                     break
-        cur = tuple(s['obs'].get(f) for f in ('bal', 'utxos', 'kb', 'txs', 'pa'))
-        if prev is not None and cur != prev:
-            stats['nontrivial'] += 1
-        prev = cur
+        if obs:
+            cur = tuple(s['obs'].get(f) for f in ('bal', 'utxos', 'kb', 'txs', 'pa'))
+            if wid in prevs and cur != prevs[wid]:
+                stats['nontrivial'] += 1
+            prevs[wid] = cur
     # a divergence from the model in a history where the property oracle also fails is reported through the oracle
     if any(f['kind'] == 'property' for f in fails):
         fails = [f for f in fails if f['kind'] != 'correspondence']
@@ -520,15 +889,15 @@ def execute(hs, rundir, exe):
 
 def safe_judge(r, mo):
     if isinstance(mo, str) and (mo.startswith('CRASH') or mo == 'BADREQ'):
-        return [{'step': -1, 'cls': 'driver_crash', 'what': 'model driver: ' + mo[:200], 'kind': 'correspondence'}], \
-               {'steps': 0, 'nontrivial': 0, 'guard_false': 0, 'errs': 0}
+        return [{'step': -1, 'opi': 0, 'cls': 'driver_crash', 'what': 'model driver: ' + mo[:200], 'kind': 'correspondence'}], \
+               {'steps': 0, 'nontrivial': 0, 'guard_false': 0, 'errs': 0, 'touches': 0, 'refused': 0, 'quiet': 0}
     return judge(r, mo)
 
 
 def shrink(h, fail, rundir, exe, budget=14):
     """Delta debugging on the operation list: keep the smallest list that still fails in the same class."""
     kind, hid, ops = h
-    ops = ops[:max(1, fail['step'])] if fail['step'] > 0 else ops      # step i is ops[i-1]; drop what follows
+    ops = ops[:max(1, fail['opi'])] if fail.get('opi', 0) > 0 else ops      # drop what follows the failing operation
     cls = fail['cls']
     n = 2
     rounds = 0
@@ -548,7 +917,7 @@ def shrink(h, fail, rundir, exe, budget=14):
             fs, _ = safe_judge(r, mo)
             f = next((x for x in fs if x['cls'] == cls), None)
             if f is not None:
-                k = f['step'] if f['step'] > 0 else len(c)
+                k = f['opi'] if f.get('opi', 0) > 0 else len(c)
                 hit = (c[:k], f)
                 break
         if hit:
@@ -619,7 +988,8 @@ def main(tier, seed, replay=None):
         # operations of a recorded finding class are generated once its entry is present (they are then counted as
         # known); without the entry they would be reported as violations on every run
         cross = any(e.get('status') == 'known' and e.get('class') == KNOWN_CROSS for e in load_known(PROP))
-        hs = gen_histories(rng, tier if proof_ok else 'thorough', cross=cross)
+        hs = gen_histories(rng, tier if proof_ok else 'thorough', cross=cross,
+                           shared_delete=known_status(KNOWN_SHARED_DELETE) in ('known', 'fixed'))
 
     known = load_known(PROP)
     failing_input_found = False
@@ -635,26 +1005,34 @@ def main(tier, seed, replay=None):
         for h, r, mo in zip(hs, rs, mouts):
             fs, st = safe_judge(r, mo)
             res.evaluations += st['steps']
-            res.count('kind:' + h[0])
-            if 'steps' in r and r['steps'] and r['steps'][-1]['obs']:
-                res.count('accounts:%d' % len(obs_groups(r['steps'][-1]['obs']).split(',')))
+            res.count('kind:' + h[0].partition('+')[0])
+            lastobs = next((x['obs'] for x in reversed(r.get('steps', [])) if observed(x)), None) if 'steps' in r else None
+            if lastobs:
+                res.count('accounts:%d' % len(obs_groups(lastobs).split(',')))
             res.count('ops', len(h[2]))
             res.count('steps_with_error_answer', st['errs'])
             res.count('steps_guard_false', st['guard_false'])
+            res.count('steps_without_observation', st['quiet'])
+            res.count('sends_marking_rows_of_another_wallet', st['touches'])
+            res.count('deletes_refused_shared_txid', st['refused'])
             if 'steps' in r:
-                pre = []
-                prev = None
-                for op, s in zip(['create'] + h[2], r['steps']):
-                    pre.append(op)
-                    res.count('op:' + op.split(':')[0])
+                res.count('wallets_in_file:%d' % len(set(x.get('wid', 0) for x in r['steps'])))
+                for fl in h[0].partition('+')[2]:
+                    res.count('flag:' + fl)
+                prevs = {}
+                for n, s in enumerate(r['steps']):
+                    res.count('op:' + s['op'].rstrip('!').split(':')[0])
                     if s['obs'] is None:
                         break
+                    if not observed(s):
+                        continue
                     cur = (s['obs']['bal'], s['obs']['utxos'], s['obs']['kb'], s['obs']['txs'], s['obs'].get('pa'))
-                    if prev is not None and cur != prev:
-                        res.distinct.add((h[0], h[1], len(pre)))
-                    prev = cur
+                    wid = s.get('wid', 0)
+                    if wid in prevs and cur != prevs[wid]:
+                        res.distinct.add((h[0], h[1], n))
+                    prevs[wid] = cur
             if len(res.samples) < 6 and 'steps' in r and len(h[2]) >= 3:
-                last = r['steps'][-1]['obs'] or {}
+                last = lastobs or {}
                 res.samples.append({'kind': h[0], 'ops': ' '.join(h[2])[:400], 'final_balance': last.get('bal'),
                                     'final_unspent': (last.get('utxos') or '')[:200],
                                     'model_ops': ' '.join(r['steps'][1]['mops'])[:200] if len(r['steps']) > 1 else ''})
